@@ -177,3 +177,46 @@ def dataset_compositions(run: "Run"):
     if not out:
         raise AnalysisError("Dataset.evaluate does not forward to a composed expression (anchor vanished)")
     return out
+
+
+_MUTATING_CALLS = {"append", "appendleft", "extend", "add", "update", "setdefault", "pop", "popitem", "clear", "remove", "discard", "insert",
+                   "__setitem__", "__delitem__", "register", "run", "warn", "log", "acquire", "release"}
+
+
+def behaviour(repo, module, fn, cls=None, env=None, effects: bool = True, ctx=None) -> List[str]:
+    """Canonical behaviour of a small function, independent of statement order, local names,
+    guard-clause vs if/else form and private helpers (they are inlined): the sorted set of
+
+        <established atomic conditions> => <effects in order> -> ret <term> | raise <term> [from e]
+
+    over all paths.  Effects are attribute / item stores, operations applied to nodes, requests and
+    calls of mutating methods."""
+    from .interp import Ctx, Frame, analyse_function
+    out = set()
+    for p in analyse_function(ctx or Ctx(repo), module, fn, env, cls=cls):
+        cs = set()
+        for k, pol in Frame.atoms(p.conds).items():
+            cs.add(f"{k}={'T' if pol else 'F'}")
+        for c in p.conds:
+            if not c[2] and c[0]:
+                cs.add(c[0])
+        effs = []
+        if effects:
+            for e in p.events:
+                if e.kind == "store" and len(e.args) == 2:
+                    a1 = e.args[1]
+                    slot = (f"[{a1.args[0].key()}]" if getattr(a1, "head", "") == "index" and a1.args else "." + str(getattr(a1, "v", a1.key())))
+                    effs.append(f"store {e.args[0].key()}{slot} = {e.target.key() if e.target is not None else '?'}")
+                elif e.kind == "op":
+                    effs.append(f"op {e.op}({e.target.key() if e.target is not None else '?'}, {e.opts.key() if e.opts is not None else None})" + (" failed" if e.failed else ""))
+                elif e.kind == "call" and e.text in _MUTATING_CALLS:
+                    effs.append(f"call {e.target.key() if e.target is not None else ''}.{e.text}({', '.join(a.key() for a in e.args)})" + (" failed" if e.failed else ""))
+        if p.status == "ret":
+            o = "ret " + (p.ret.key() if p.ret is not None else "None")
+        else:
+            rev = [e for e in p.events if e.kind == "raise"]
+            o = "raise " + (rev[-1].target.key() if rev and rev[-1].target is not None else (p.exc[0] if p.exc else "?"))
+            if p.exc and p.exc[1] not in ("none", None):
+                o += f" [{p.exc[1]}]"
+        out.add(" & ".join(sorted(cs)) + " => " + "; ".join(effs) + " -> " + o)
+    return sorted(out)
